@@ -20,20 +20,56 @@ import (
 var errVerifInjected = errors.New("verif: injected storage fault")
 
 type verifFaultCtl struct {
-	mu     sync.Mutex
-	armed  bool
-	count  int
-	failAt int
-	fired  bool
-	kinds  []string
+	mu       sync.Mutex
+	armed    bool
+	count    int
+	failAt   int
+	fired    bool
+	kinds    []string
+	errKind  int  // which error value the failing call returns (verifFaultGeneric ...)
+	standing bool // false: only the failAt-th call fails; true: that one and every later one
 }
 
 var verifFault verifFaultCtl
 
+// WHAT the failing call returns.  Busy / locked are real sqlite3.Error values (type tests and
+// errors.As match them), bad-conn is driver.ErrBadConn (database/sql reacts to it on its own),
+// deadline is context.DeadlineExceeded.
+const (
+	verifFaultGeneric = iota
+	verifFaultBusy
+	verifFaultLocked
+	verifFaultBadConn
+	verifFaultDeadline
+	verifNFaultKinds
+)
+
+// names in the model (Model/Storage.v fkind) and in oracle keys
+var verifFaultCoq = []string{"KGeneric", "KBusy", "KLocked", "KBadConn", "KDeadline"}
+var verifFaultNames = []string{"generic", "busy", "locked", "bad-conn", "deadline"}
+
+func verifFaultError(kind int) error {
+	switch kind {
+	case verifFaultBusy:
+		return sqlite3.Error{Code: sqlite3.ErrBusy}
+	case verifFaultLocked:
+		return sqlite3.Error{Code: sqlite3.ErrLocked}
+	case verifFaultBadConn:
+		return driver.ErrBadConn
+	case verifFaultDeadline:
+		return context.DeadlineExceeded
+	}
+	return errVerifInjected
+}
+
 // arm the counter; failAt < 0 only counts
-func (c *verifFaultCtl) arm(failAt int) {
+func (c *verifFaultCtl) arm(failAt int) { c.armKind(failAt, verifFaultGeneric, false) }
+
+// the failAt-th call fails with an error of the given kind; standing: every later call too
+func (c *verifFaultCtl) armKind(failAt, kind int, standing bool) {
 	c.mu.Lock()
 	c.armed, c.count, c.failAt, c.fired, c.kinds = true, 0, failAt, false, nil
+	c.errKind, c.standing = kind, standing
 	c.mu.Unlock()
 }
 
@@ -53,9 +89,9 @@ func (c *verifFaultCtl) event(kind string) error {
 	i := c.count
 	c.count++
 	c.kinds = append(c.kinds, kind)
-	if i == c.failAt {
+	if i == c.failAt || (c.standing && c.failAt >= 0 && i > c.failAt) {
 		c.fired = true
-		return errVerifInjected
+		return verifFaultError(c.errKind)
 	}
 	return nil
 }
